@@ -514,9 +514,18 @@ func halfBits(x float64) uint16 {
 
 var shDims = []int{0, 3, 8, 15}
 
-func spzFile(version, shDegree, n int) (File, error) {
+func spzFile(version, shDegree, n int) (File, error) { return spzFileMembers(version, shDegree, n, false) }
+
+// spzFileMembers: perBlock writes every block of the scene (header, positions, alphas, colours,
+// scales, rotations, harmonics) as a gzip member of its own - a gzip file is a series of members
+// (RFC 1952) and compress/gzip reads the series as one stream, so the file decodes like the
+// single-member one, but a cut at a member boundary leaves a *complete* gzip stream whose data
+// simply ends early.
+func spzFileMembers(version, shDegree, n int, perBlock bool) (File, error) {
 	const fracBits = 12
 	raw := &bytes.Buffer{}
+	var blocks []int
+	mark := func() { blocks = append(blocks, raw.Len()) }
 	le := binary.LittleEndian
 	binary.Write(raw, le, uint32(0x5053474e))
 	binary.Write(raw, le, uint32(version))
@@ -524,6 +533,10 @@ func spzFile(version, shDegree, n int) (File, error) {
 	raw.Write([]byte{byte(shDegree), fracBits, 0, 0})
 	f := File{ID: fmt.Sprintf("spz/v%d-sh%d-%dpts", version, shDegree, n), Family: "spz", Decoder: "spz",
 		NVerts: n, NPrims: n, Pos: truthPos(n), PosTol: 1e-12}
+	if perBlock {
+		f.ID += "-member-per-block"
+	}
+	mark()
 	for i := 0; i < n; i++ {
 		for _, x := range posOf(i) {
 			if version == 1 {
@@ -534,35 +547,62 @@ func spzFile(version, shDegree, n int) (File, error) {
 			}
 		}
 	}
+	mark()
 	for i := 0; i < n; i++ { // alphas
 		raw.WriteByte(byte(200 + i))
 	}
+	mark()
 	for i := 0; i < 3*n; i++ { // colours
 		raw.WriteByte(byte(10 + 7*i))
 	}
+	mark()
 	for i := 0; i < 3*n; i++ { // scales
 		raw.WriteByte(byte(100 + 3*i))
 	}
+	mark()
 	for i := 0; i < 3*n; i++ { // rotations
 		raw.WriteByte(byte(120 + 5*i))
 	}
+	mark()
 	for i := 0; i < 3*n*shDims[shDegree]; i++ {
 		raw.WriteByte(byte(1 + 11*i))
 	}
 	gz := &bytes.Buffer{}
-	w, err := gzip.NewWriterLevel(gz, gzip.DefaultCompression)
-	if err != nil {
-		return f, err
+	member := func(data []byte) error {
+		w, err := gzip.NewWriterLevel(gz, gzip.DefaultCompression)
+		if err != nil {
+			return err
+		}
+		if _, err := w.Write(data); err != nil {
+			return err
+		}
+		return w.Close()
 	}
-	if _, err := w.Write(raw.Bytes()); err != nil {
-		return f, err
+	if !perBlock {
+		if err := member(raw.Bytes()); err != nil {
+			return f, err
+		}
+		f.Data = gz.Bytes()
+		f.BodyStart = len(f.Data)
+		f.Sections = []Section{{"gzip-header", 0}, {"deflate-stream", 10}, {"gzip-trailer", len(f.Data) - 8}}
+		return f, nil
 	}
-	if err := w.Close(); err != nil {
-		return f, err
+	names := []string{"member:header", "member:positions", "member:alphas", "member:colours", "member:scales", "member:rotations", "member:harmonics"}
+	blocks = append(blocks, raw.Len())
+	from := 0
+	for i, to := range blocks {
+		if to == from && i > 0 {
+			continue // no harmonics at degree 0
+		}
+		f.Sections = append(f.Sections, Section{names[i], gz.Len()})
+		f.Marks = append(f.Marks, gz.Len())
+		if err := member(raw.Bytes()[from:to]); err != nil {
+			return f, err
+		}
+		from = to
 	}
 	f.Data = gz.Bytes()
 	f.BodyStart = len(f.Data)
-	f.Sections = []Section{{"gzip-header", 0}, {"deflate-stream", 10}, {"gzip-trailer", len(f.Data) - 8}}
 	return f, nil
 }
 
@@ -650,6 +690,9 @@ func family(thorough bool) (files []File, errs []string) {
 	for _, v := range []int{1, 2} {
 		for _, sh := range []int{0, 1} {
 			add(spzFile(v, sh, 3))
+			if v == 2 && (sh == 0 || sh == 1) {
+				add(spzFileMembers(v, sh, 3, true))
+			}
 		}
 	}
 	add(ptsFile(3, 3), nil)
